@@ -13,3 +13,8 @@ package keystore
 //@ func (*KeystoreManager).GetManagedAddressByScriptHash
 //@   trusted
 //@   requires km != nil
+
+//@ func (*AddrManager).Address
+//@   trusted
+//@   requires a != nil
+//@   ensures (result1 == nil) == (result0 != nil)
